@@ -208,6 +208,11 @@ func genC02(g *Rng, tier string, emit func(Op)) {
 			emit(listOp(s.keys, s.trees, new(big.Int).Neg(s.ctx), s.nonce, s.issig, nil, "context-negated", "reject"))
 		}
 		emit(listOp(s.keys, s.trees, s.ctx, s.nonce, !s.issig, nil, "other-session-kind", "reject"))
+		// a crafted member that nothing binds (its contribution cannot be reconstructed), next to
+		// the genuine proofs of this very session
+		for _, o := range unboundMemberOps(g, s.keys, s.trees, s.ctx, s.nonce, s.issig, "C02/unbound-member") {
+			emit(o)
+		}
 		// empty list / length mismatch
 		emit(listOp(nil, []any{}, s.ctx, s.nonce, s.issig, nil, "empty", "reject"))
 		emit(listOp(s.keys, s.trees[:n-1], s.ctx, s.nonce, s.issig, nil, "fewer-proofs-than-keys", "reject"))
